@@ -643,6 +643,18 @@ func (s *state) evalExpr(exp parse.Expr) (v Value, e error) {
 		if err != nil {
 			return nil, err
 		}
+		// "and" and "or" do not evaluate their right operand when the left
+		// one decides the result.
+		switch exp.Op {
+		case parse.OpBinaryAnd:
+			if !CoerceBool(left) {
+				return false, nil
+			}
+		case parse.OpBinaryOr:
+			if CoerceBool(left) {
+				return true, nil
+			}
+		}
 		right, err := s.evalExpr(exp.Right)
 		if err != nil {
 			return nil, err
